@@ -14,6 +14,7 @@ RULE = (
     "assembled independently from fresh items, extracted mode shapes vs eigenvectors, frequency = sqrt(lambda)/(2 pi), "
     "3 (2-D) / 6 (3-D) zero modes of the unconstrained body, spectrum of the moved mesh. Non-trivial: >= 2 distinct "
     "non-zero eigenvalues returned."
+    ' Added later: the pencil handed to the solver is recorded and compared, items of different materials with multipliers on either item, up to four cell-less points with an independent partition, spectral shifts through the sigma keyword, axisymmetric and orthotropic bodies, a separate global field handed over as x0; mixed containers are decided with the massless unknowns condensed.'
 )
 ASSUMPTIONS = [
     "boundary values are zero (documented restriction of the free-vibration analysis)",
